@@ -168,8 +168,19 @@ func operandCalls(r *PathRow, callee *ssa.Function) []*ssa.Call {
 
 func atomKey(c *ssa.Call, idx int) string { return fmt.Sprintf("%s#%d", c.Name(), idx) }
 
+// argN: the i-th argument of the call, or nil.
+func argN(c *ssa.Call, i int) ssa.Value {
+	if c == nil || i >= len(c.Call.Args) {
+		return nil
+	}
+	return c.Call.Args[i]
+}
+
 // getterArg: v is ast getter `name` applied to the function's node parameter.
 func isGetterOf(v ssa.Value, name string) bool {
+	if v == nil {
+		return false
+	}
 	c, ok := stripConv(v).(*ssa.Call)
 	if !ok {
 		return false
@@ -377,10 +388,10 @@ func checkBinaryConnective(p *Prog, tx *tableEx, rows []*PathRow, base Assign, b
 				continue
 			}
 			// operand order and identity
-			if !isGetterOf(calls[0].Call.Args[2], "Left") {
+			if !isGetterOf(argN(calls[0], 2), "Left") {
 				probs = append(probs, "first evaluated operand is not Left() at "+p.pos(calls[0].Pos()))
 			}
-			if len(calls) == 2 && !isGetterOf(calls[1].Call.Args[2], "Right") {
+			if len(calls) == 2 && !isGetterOf(argN(calls[1], 2), "Right") {
 				probs = append(probs, "second evaluated operand is not Right() at "+p.pos(calls[1].Pos()))
 			}
 			r1, e1 := atomKey(calls[0], 0), atomKey(calls[0], 1)
@@ -545,7 +556,7 @@ func checkUnaryConnective(p *Prog, tx *tableEx, rows []*PathRow, opAtom string, 
 			switch name {
 			case "UnaryNot", "UnaryIsUnknown":
 				calls := operandCalls(r, bd)
-				if len(calls) != 1 || !isGetterOf(calls[0].Call.Args[2], "Operand") {
+				if len(calls) != 1 || !isGetterOf(argN(calls[0], 2), "Operand") {
 					probs = append(probs, "operand is not evaluated exactly once from Operand() on the path ending at "+p.pos(r.End.Pos()))
 					continue
 				}
@@ -595,7 +606,7 @@ func checkUnaryConnective(p *Prog, tx *tableEx, rows []*PathRow, opAtom string, 
 						sc = c
 					}
 				}
-				if sc == nil || !isGetterOf(sc.Call.Args[2], "Operand") {
+				if sc == nil || !isGetterOf(argN(sc, 2), "Operand") {
 					probs = append(probs, "exists does not evaluate Operand() on the path ending at "+p.pos(r.End.Pos()))
 					continue
 				}
@@ -862,7 +873,7 @@ var ruleFilter = &Rule{
 				if unwrapCall != nil {
 					probs = append(probs, "the condition is evaluated after an unwrapping call on the same path ("+where+")")
 				}
-				if !isGetterOf(condCall.Call.Args[2], "Operand") || !p.passesParam(condCall, valueParam) {
+				if !isGetterOf(argN(condCall, 2), "Operand") || !p.passesParam(condCall, valueParam) {
 					probs = append(probs, "the condition at "+p.pos(condCall.Pos())+" is not Operand() evaluated on the tested item")
 				}
 				st, e1 := atomKey(condCall, 0), atomKey(condCall, 1)
@@ -1099,7 +1110,7 @@ func init() {
 	register(ruleFilter)
 	addProp(&PropSpec{
 		ID:          "C10",
-		Rules:       []string{"R-FILTER", "R-STATE", "R-SCOPE", "R-PAIR-P", "R-PREDLOOP", "R-ONELEVEL", "R-EXECADDR", "R-COLLMONO", "R-UNWRAPTHREAD", "R-RESUPPRESS"},
+		Rules:       []string{"R-FILTER", "R-STATE", "R-SCOPE", "R-PAIR-P", "R-PREDLOOP", "R-ONELEVEL", "R-EXECADDR", "R-COLLMONO", "R-UNWRAPTHREAD", "R-RESUPPRESS", "R-VALUETYPES", "R-SCRATCHSTATUS"},
 		Explanation: "The filter is a small decision procedure: its complete table over (unwrap, operand is an array, condition outcome, condition error) is extracted from the filter arm and compared with 'keep exactly the items whose condition is true, hand on the very same item, drop the others without aborting, abort only on an error'; @ is bound to the tested item and restored on every exit (typestate); the outcome→item mapping of predicate check expressions is extracted likewise.",
 		Decided: []string{"R-FILTER: table of the filter arm, identity of tested and forwarded item, unwrap-before-condition, @ binding, predicate-as-item mapping",
 			"R-STATE: @ restored on every exit of the condition executor", "R-SCOPE: the continuation is not evaluated while @ is rebound", "R-PAIR-P: an error from the condition is (failed, err), never (not found, err)"},
